@@ -106,7 +106,11 @@ def batches(tier, seed):
     n = 420 if tier == 'quick' else 3000
     cases = []
     for i in range(n):
-        c = matcase.gen(rng, max_src=2, max_tgt=3, overrides=False) if rng.random() < 0.55 else gen_pattern_settings(rng)
+        r_ = rng.random()
+        # a seventh of the cases has three sources (amount-first encoders group the matrices by connection amounts, and the
+        # groups only differ in size with enough nodes)
+        c = (matcase.gen(rng, max_src=3, max_tgt=2, overrides=False) if r_ < 0.14 else
+             matcase.gen(rng, max_src=2, max_tgt=3, overrides=False) if r_ < 0.55 else gen_pattern_settings(rng))
         c['_fam'] = rng.randrange(N_FAMILIES)
         # settings made for a pattern meet the pattern encoder written for it in half of the cases (the selector tries the
         # pattern encoders first, so this pairing is the one users get)
@@ -126,6 +130,16 @@ def batches(tier, seed):
                        'patterns': [{'src': [None] * ns, 'tgt': [None] * nt}], '_fam_name': 'enum%d' % e,
                        '_fam': 0, '_imp': (j + e) % 4, '_i': 5000 + 4 * j + e})
     yield 'power-counts-x-enumeration-encoders', pw
+    # the amount-first encoders (connection amounts first, then a pattern index within the group): groups of unequal size
+    # need three nodes on a side
+    af = []
+    for i in range(30 if tier == 'quick' else 400):
+        c = matcase.gen(rng, max_src=3, max_tgt=3, overrides=False)
+        while len(c['src']) < 3 and len(c['tgt']) < 3:
+            c = matcase.gen(rng, max_src=3, max_tgt=3, overrides=False)
+        c.update({'_fam_name': 'lazy%d' % (1 + i % 2), '_fam': 0, '_imp': rng.randrange(4), '_i': 7000 + i})
+        af.append(c)
+    yield 'three-nodes-x-amount-first-encoders', af
 
 
 def _mk_manager(settings, fam, imp):
@@ -160,10 +174,10 @@ def run_case(case):
         return {'skip': 'invalid-pattern-encoder', 'tags': tags}
     except Exception as e:
         return {'fail': {'clause': 'manager-construction-raises:%s' % type(e).__name__, 'detail': '%s %s: %s: %s' % (fam[0], imp[0], type(e).__name__, e)}, 'tags': tags}
-    return check_manager(mgr, c, pats, rng, tags, fam[0], imp[0], fam[3])
+    return check_manager(mgr, c, pats, rng, tags, fam[0], imp[0], fam[3], converse=bool(case.get('_converse')))
 
 
-def check_manager(mgr, c, pats, rng, tags, enc_label, imp_label, kind):
+def check_manager(mgr, c, pats, rng, tags, enc_label, imp_label, kind, converse=False):
     """decode tables of one manager for every pattern -> the run_case result (queries for coding_verdict + impl facts)"""
     import numpy as np
     fam = (enc_label, None, None, kind)
@@ -239,6 +253,17 @@ def check_manager(mgr, c, pats, rng, tags, enc_label, imp_label, kind):
             t2 = by_in.get(tuple(t[1]))
             if t2 is not None and t2[1] == t[1] and t2[3] == t[3] and t2[2] != t[2]:
                 return {'fail': {'clause': 'activeness-depends-on-decode-path', 'detail': '%s %s pattern %d: x=%s -> %s act %s, but decoding %s gives act %s' % (fam[0], imp[0], k, t[0], t[1], t[2], t[1], t2[2])}, 'tags': tags + ['kind:' + fam[3]]}
+        # (converse=True, used by C03) C03's last clause at the level of one connection choice: two different corrected vectors
+        # never denote the same matrix
+        # (checked on fixed points only: out == in, so that the activeness is the direct-hit one)
+        fixed_pts = {}
+        for t in (table if converse else []):
+            if t[0] == t[1]:
+                key = sx(t[3])
+                other = fixed_pts.setdefault(key, t)
+                if other[1] != t[1]:
+                    return {'fail': {'clause': 'two-corrected-vectors-one-matrix', 'detail': '%s %s pattern %d: %s and %s are both fixed points and decode to %s' % (
+                        fam[0], imp[0], k, other[1], t[1], t[3])}, 'tags': tags + ['kind:' + fam[3]]}
         queries.append(sx(['coding_verdict', ssx, matcase.sx_pattern(c['patterns'][k]), nopts, table]))
         lst = None if listed is None else {(tuple(max(v, 0) for v in r), tuple(v != -1 for v in r)) for r in listed_rows}
         impl.append({'pattern': k, 'n_mat': n_mat, 'table_size': len(table), 'exhaustive': exhaustive,
